@@ -7,7 +7,10 @@
         SELECT COUNT( * ) FROM mailboxes            (fast path)      [ICount]
         BEGIN IMMEDIATE   (one pinned connection)                   [IBegin]
         SELECT COUNT( * ) FROM mailboxes            (under the lock) [IRecount]
-        INSERT INTO mailboxes ... x 5                               [IIns 0..4]
+        for each of the five defaults:
+          INSERT INTO uid_validity_seq ... ON CONFLICT DO UPDATE ...
+            RETURNING last_value   (nextUIDValidityPerUser)         [IIns 0,2,4,6,8]
+          INSERT INTO mailboxes ...                                 [IIns 1,3,5,7,9]
         COMMIT                                                      [ICommit]
     followed by what the session came for (a delivery / APPEND / SELECT: one
     autocommit writing step here, [IDeliver]; its own micro-steps are the
@@ -90,13 +93,14 @@ Definition istep (c : icfg) (i : nat) (t : ithread) : icfg * ithread :=
               | Deferred => go IRecount
               end
   | IRecount => if Nat.eqb (defaults c) 0 then go (IIns 0) else go IDeliver   (* else: rollback *)
-  | IIns 0 => match m with
+  | IIns 0 => match m with                                        (* first write: the allocator *)
               | Immediate => go (IIns 1)
               | Deferred => if ow then go IFail                 (* database is locked, at once *)
-                            else if Nat.eqb (defaults c) 0 then go (IIns 1)
-                            else go IFail                       (* UNIQUE(user_id, name) *)
+                            else go (IIns 1)
               end
-  | IIns k => if Nat.ltb k 4 then go (IIns (S k)) else go ICommit
+  | IIns 1 => if Nat.eqb (defaults c) 0 then go (IIns 2)
+              else go IFail                                     (* UNIQUE(user_id, name) on INBOX *)
+  | IIns k => if Nat.ltb k 9 then go (IIns (S k)) else go ICommit
   | ICommit => if os then stay
                else (mkIC (S (defaults c)) (stored c) (ths c), mkIT m IDeliver)
   | IDeliver => if ow || os then stay
@@ -136,11 +140,11 @@ Definition eval_hold (k : txmode * nat) : Z * Z * Z * Z * Z :=
   let '(m, h) := k in
   let c0 := iinit [m; m] in
   let c1 := irun (repeat 0 h) c0 in
-  let c2 := irun (repeat 1 12) c1 in
+  let c2 := irun (repeat 1 20) c1 in
   let early := match nth_error (ths c2) 1 with
                | Some t => if is_idone t || is_ifail t then 1%Z else 0%Z
                | None => 0%Z end in
-  let c3 := irun (repeat 1 12) (irun (repeat 0 12) c2) in
+  let c3 := irun (repeat 1 20) (irun (repeat 0 20) c2) in
   (match nth_error (ths c3) 0 with Some t => st_code t | None => 2%Z end,
    match nth_error (ths c3) 1 with Some t => st_code t | None => 2%Z end,
    Z.of_nat (defaults c3), Z.of_nat (stored c3), early).
